@@ -54,10 +54,10 @@ static const Profile& profileFor(const std::string &prop)
         P["C05"] = { "C05", K(FK_MTI)|K(FK_MTR)|K(FK_EVP)|K(FK_MTB), true, true, false,
             cat({BUILD, CHURN, {{"bin", 50}, {"unary", 10}, {"range", 8}, {"misuse", 2}}}), false, false };
         P["C06"] = { "C06", K_ALL, true, true, false,
-            cat({BUILD, CHURN, CHURN, {{"bin", 25}, {"copy", 5}, {"masscopy", 2}, {"drain", 4}, {"detach", 2}, {"iteropen", 2}, {"iterstep", 4}, {"image", 3}, {"reach", 2}}}), false, false };
+            cat({BUILD, CHURN, CHURN, {{"bin", 25}, {"copy", 5}, {"masscopy", 2}, {"hoard", 5}, {"unhoard", 9}, {"drain", 4}, {"detach", 2}, {"iteropen", 2}, {"iterstep", 4}, {"image", 3}, {"reach", 2}}}), false, false };
         P["C07"] = { "C07", K_ALL, true, true, false,
             cat({BUILD, CHURN, {{"bin", 40}, {"compl", 4}, {"copy", 8}, {"purge", 8}, {"release", 8}, {"image", 4}, {"unary", 4}, {"cross", 2}, {"rebuild", 4}}}), false, false };
-        P["C08"] = { "C08", K(FK_MTB), true, true, false,
+        P["C08"] = { "C08", K(FK_MTB)|K(FK_MTI)|K(FK_EVP), true, true, false,
             cat({BUILD, {{"reach", 30}, {"bin", 6}, {"release", 4}, {"purge", 2}, {"copy", 2}}}), false, false };
         P["C09"] = { "C09", K(FK_MTB)|K(FK_MTI)|K(FK_EVP)|K(FK_MTR), true, true, false,
             cat({BUILD, {{"image", 30}, {"vmmult", 14}, {"bin", 4}, {"release", 4}, {"purge", 2}}}), false, false };
@@ -69,8 +69,8 @@ static const Profile& profileFor(const std::string &prop)
             cat({BUILD, CHURN, {{"bin", 30}, {"compl", 3}, {"copy", 8}, {"counts", 6}, {"image", 3}, {"cross", 2}, {"release", 8}, {"unary", 3}}}), false, false };
         P["C13"] = { "C13", K(FK_MTB)|K(FK_MTI)|K(FK_MTR)|K(FK_EVP), true, true, false,
             cat({BUILD, {{"reorder", 20}, {"bin", 12}, {"release", 4}, {"purge", 1}, {"rebuild", 4}, {"iter", 3}}}), false, true };
-        P["C14"] = { "C14", K_ALL, true, true, false,
-            cat({BUILD, {{"io", 30}, {"bin", 8}, {"release", 4}, {"reorder", 1}}}), false, false };
+        P["C14"] = { "C14", K_ALL|K(FK_IDX), true, true, false,
+            cat({BUILD, {{"io", 30}, {"bin", 8}, {"release", 4}, {"reorder", 1}, {"index", 5}, {"copy", 3}}}), false, false };
         P["C15"] = { "C15", K(FK_MTB)|K(FK_IDX), true, false, false,
             cat({BUILD, {{"index", 30}, {"bin", 10}, {"compl", 3}, {"release", 4}, {"card", 3}, {"iter", 3}}}), false, false };
         P["C16"] = { "C16", K_ALL, true, true, true,
@@ -121,8 +121,13 @@ void generatePlan(uint64_t seed, const GenOptions &opt, Plan &P)
         long N = 1;
         const int nv = 1 + int(R.below(wantRel ? 3 : 4));
         const long cap = wantRel ? 24 : 96;
+        const int bigv = R.chance(1, 6) ? int(R.below(uint64_t(nv))) : -1;
         for (int v = 0; v < nv; v++) {
             int s = 2 + int(R.below(3));
+            // one run in six has one wide variable (large nodes, long full
+            // and sparse forms, bigger chunks in the node memory managers)
+            if (v == bigv) s = wantRel ? 5 + int(R.below(4)) : 6 + int(R.below(15));
+            while (s > 2 && N * s > cap) s--;
             if (N * s > cap) s = 2;
             if (N * s > cap) break;
             sz.push_back(s);
@@ -142,7 +147,8 @@ void generatePlan(uint64_t seed, const GenOptions &opt, Plan &P)
     if (R.chance(1, 2)) focus.push_back(kinds[R.below(kinds.size())]);
     if ((pf.kinds & K(FK_MTB)) && R.chance(1, 2)) focus.push_back(FK_MTB);
     const std::string pr = opt.prop;
-    if (pr == "C08" || pr == "C20" || pr == "C04") { focus.clear(); focus.push_back(FK_MTB); }
+    if (pr == "C20" || pr == "C04") { focus.clear(); focus.push_back(FK_MTB); }
+    if (pr == "C08") { focus.clear(); focus.push_back(FK_MTB); focus.push_back(FK_MTB); focus.push_back(FK_MTI); focus.push_back(FK_EVP); }
     if (pr == "C15") { focus.clear(); focus.push_back(FK_MTB); focus.push_back(FK_IDX); }
     for (int i = 0; i < nfor; i++) {
         ForSpec f;
@@ -165,6 +171,13 @@ void generatePlan(uint64_t seed, const GenOptions &opt, Plan &P)
             if (f.kind == FK_EVP && !f.rel && R.chance(1, 3)) f.red = 1;
         }
         if (pr == "C20" && f.rel) f.red = R.chance(1, 2) ? 2 : 1;
+        if (pr == "C08") {
+            if (f.rel) f.kind = FK_MTB;                         // relations are boolean
+            else if (i == 0) f.kind = FK_MTB;                   // at least one boolean set forest
+            if (!f.rel && f.kind == FK_MTI) f.red = 0;          // MT distances need a fully-reduced forest
+            if (f.rel) f.red = int(R.below(3));
+            else if (f.kind == FK_MTB) f.red = int(R.below(2));
+        }
         f.storage = 1 + int(R.below(3));
         f.del = int(R.below(3));
         if (R.chance(1, 2)) f.del = 1 + int(R.below(2));
@@ -201,6 +214,8 @@ void generatePlan(uint64_t seed, const GenOptions &opt, Plan &P)
         if (s.op == "satpart") s.a[4] = 0;      // by events (by levels: known finding, probe plan only)
         if (s.op == "masscopy" && s.a[2] == 777) s.a[2] = 776;
         if (s.op == "masscopy" && opt.thorough && R.chance(1, 4)) s.a[2] = 777;
+        if (s.op == "hoard" && s.a[2] == 777) s.a[2] = 776;
+        if (s.op == "hoard" && opt.thorough && R.chance(1, 5)) s.a[2] = 777;
         s.seed = R.next();
         s.drop = droprate;
         P.steps.push_back(s);
